@@ -898,7 +898,7 @@ def params (cfg):
   # object with __call__, builtin, class) and declarations that carry args= / kw= for the callback, next to plain
   # waiters and one sink; every such waiter may return / raise / register / declare like any other
   # (the full product kind x name x arguments x ending x order x position x forms is the lattice in callable_part)
-  callables = dict(nc=2, maxp=cfg.pick(2, 3), depth=cfg.pick(5, 5), dev=2, sinks=[0], goup=[""], noquit=True,
+  callables = dict(nc=2, maxp=cfg.pick(2, 3), depth=5, dev=2, sinks=[0], goup=[""], noquit=True,
                    forms=(("str",), ("list",)),
                    callables=[(ck, "plain") for ck in BFS_CALLABLES] + [("function", "both")])
   for label, p in (("q", q), ("shared", shared), ("defer", defer), ("wiring", wiring), ("kinds", kinds),
@@ -1043,6 +1043,11 @@ def _kind_class (ck):
   return "callable-without-__name__" if ck in NAMELESS else ck
 
 
+def _txt (e):
+  try: return "%s: %s" % (type(e).__name__, e)
+  except Exception: return "%s (no text)" % type(e).__name__
+
+
 def _raise (ending):
   if ending == "return": return
   if ending == "bad-str": raise _BadStr()
@@ -1138,7 +1143,7 @@ def callable_case (P, case):
       key = "raises:%s:%s" % (op, site)
       if nm == "derived" and site.startswith("core.py:call_when_ready:"):
         key += ":default-name-of-" + _kind_class(ck)
-      bad = (key, "%s raised %s: %s" % (op, type(e).__name__, e))
+      bad = (key, "%s raised %s" % (op, _txt(e)))
     if kind == "reg": registered.add(what)
     for item in appended[sum(1 for r in runs if r[0] == pos):]:        # what list.append was called with meanwhile
       runs.append((pos, True, item == ("a", "s")))
@@ -1206,7 +1211,7 @@ def shared_case (P, case):
         registered.add(step[1].lower())
         core.register(step[1].lower(), object())
     except Exception as e:
-      bad = ("raises:%s:%s" % (op, site_of(P, e)), "%s raised %s: %s" % (op, type(e).__name__, e))
+      bad = ("raises:%s:%s" % (op, site_of(P, e)), "%s raised %s" % (op, _txt(e)))
     new = runs[before:]
     trace.append((step, tuple(new)))
     if bad: break
